@@ -73,7 +73,7 @@ def run(ck):
     require(ck, "G", "map_indexes:DuplicateLeafIndex", m, "reject iff the position list contains duplicates (map size differs from list size)")
     m = [g for g in errs("InvalidProof") if _own(g, gr) and match_cmp(g, ("!=",), has_callee("normalize_indexes"), has_field("BatchMerkleProof", "nodes"))]
     require(ck, "G", "get_root:node-vector-count", m, "reject iff the number of node vectors differs from the number of normalised positions")
-    opening_fully_used(ck, prog, mg, "G")
+    opening_fully_used(ck, prog, mg, "G", with_count=False)   # the count guard is stated in this inventory itself
     m = [g for g in gs if g.kind == "call" and (g.callee or "").endswith("merkle::map_indexes")]
     require(ck, "G", "get_root:map_indexes-propagated", m, "position validation errors are propagated")
     m = [g for g in gs if g.kind == "call" and (g.callee or "").endswith("Option::ok_or")]
@@ -100,7 +100,7 @@ def _own(g, gr):
     return g.fn is gr or (g.fn.crate == gr.crate and g.fn.get("vis") != "pub" and g.fn.get("impl_self_adt") == gr.get("impl_self_adt"))
 
 
-def opening_fully_used(ck, prog, mg=None, rule="G"):
+def opening_fully_used(ck, prog, mg=None, rule="G", with_count=True):
     """every part of a batch opening is used: one leaf per position, and every node of every node vector consumed — a surplus leaf or node
     is bound to nothing, yet it is decoded content of the proof (and surplus rows reach an assertion of the DEEP composer). Shared by C10
     (guard inventory), C03 (integrity: no unbound decoded content) and C06 (no panic on proof bytes)."""
@@ -127,7 +127,7 @@ def opening_fully_used(ck, prog, mg=None, rule="G"):
              not match_cmp(g, ("!=",), has_callee("normalize_indexes"), has_field("BatchMerkleProof", "nodes"))]
     require(ck, rule, "get_root:all-nodes-used", m, "reject iff some node vector of the opening was not consumed to its end",
             strength=("always", "per-iteration"))
-    if rule != "G":
+    if with_count:
         # (C10's own inventory states this guard itself) a surplus node VECTOR is unbound decoded content just like a surplus node: the count
         # of node vectors is compared with the number of normalised positions (the per-vector check above stops at the shorter list)
         m = [g for g in errs("InvalidProof") if _own(g, gr) and match_cmp(g, ("!=",), has_callee("normalize_indexes"), has_field("BatchMerkleProof", "nodes"))]
